@@ -662,6 +662,19 @@ Proof.
   - apply IH. exact H.
 Qed.
 
+(* the merging levelIterator is the iterator of write transactions only (and only with the switch on): everywhere
+   else Seek / Next / Key / Value are the functions of the code as found *)
+Lemma mi_active_ro : forall it, it_ro it = true -> mi_active it = false.
+Proof. intros it H. unfold mi_active. rewrite H. reflexivity. Qed.
+Lemma mi_active_unmerged : forall it, it_merge it = false -> mi_active it = false.
+Proof. intros it H. unfold mi_active. rewrite H. apply andb_false_r. Qed.
+Lemma iter_next_off : forall it, mi_active it = false -> iter_next it = iter_next_u it.
+Proof. intros it H. unfold iter_next. rewrite H. reflexivity. Qed.
+Lemma iter_seek_off : forall it k, mi_active it = false -> iter_seek it k = iter_seek_u it k.
+Proof. intros it k H. unfold iter_seek. rewrite H. reflexivity. Qed.
+Lemma iter_raw_off : forall it, mi_active it = false -> iter_raw it = iter_raw_u it.
+Proof. intros it H. unfold iter_raw. rewrite H. reflexivity. Qed.
+
 Lemma drain_read_only : forall fuel it,
   it_ro it = true -> it_end it = false ->
   Forall (fun e => fst e <> []) (it_ents it) ->
@@ -669,13 +682,13 @@ Lemma drain_read_only : forall fuel it,
   drain fuel it = map (strip (it_pl it)) (it_rest it).
 Proof.
   induction fuel as [|fuel IH]; intros it Hro Hend Hne Hlen; [lia|].
-  cbn [drain]. unfold iter_next. rewrite Hend. unfold ldb_next, it_rest in *.
+  cbn [drain]. rewrite iter_next_off by (apply mi_active_ro; exact Hro). unfold iter_next_u. rewrite Hend. unfold ldb_next, it_rest in *.
   destruct (it_pos it) as [|n|] eqn:Epos.
   - destruct (it_ents it) as [|e r] eqn:Eents.
     + rewrite Hro. cbn. reflexivity.
     + set (it' := set_ldb it (At 0%nat) false).
       assert (Hk : iter_key it' = Some (skipn (it_pl it) (fst e)) /\ iter_value it' = snd e).
-      { unfold iter_key, iter_value, iter_raw, it'. cbn. rewrite Eents. cbn. destruct e as [k v]. cbn.
+      { unfold iter_key, iter_value. rewrite iter_raw_off by (apply mi_active_ro; exact Hro). unfold iter_raw_u, it'. cbn. rewrite Eents. cbn. destruct e as [k v]. cbn.
         inversion Hne as [|? ? Hk _]; subst. cbn in Hk. destruct k; [congruence|]. auto. }
       destruct Hk as [Hk Hv]. rewrite Hk, Hv. cbn [map]. f_equal.
       rewrite (IH it'); unfold it'; cbn; auto.
@@ -687,7 +700,7 @@ Proof.
         [|apply nth_error_None in En; lia].
       set (it' := set_ldb it (At (S n)) false).
       assert (Hk : iter_key it' = Some (skipn (it_pl it) (fst e)) /\ iter_value it' = snd e).
-      { unfold iter_key, iter_value, iter_raw, it'. cbn [set_ldb it_end it_pos it_ents negb it_pl]. rewrite En.
+      { unfold iter_key, iter_value. rewrite iter_raw_off by (apply mi_active_ro; exact Hro). unfold iter_raw_u, it'. cbn [set_ldb it_end it_pos it_ents negb it_pl]. rewrite En.
         destruct e as [k v]. cbn. rewrite Forall_forall in Hne. apply nth_error_In in En. apply Hne in En. cbn in En.
         destruct k; [congruence|]. auto. }
       destruct Hk as [Hk Hv]. rewrite Hk, Hv. rewrite (skipn_nth_error _ _ _ En). cbn [map]. f_equal.
@@ -868,7 +881,7 @@ Lemma seek_read_only : forall it key, it_ro it = true -> keys_sorted (it_ents it
   iter_current (snd (iter_seek it key)) ++ drain (S (length (it_ents it))) (snd (iter_seek it key))
     = map (strip (it_pl it)) ge.
 Proof.
-  intros it key Hro Hs Hne ge. unfold iter_seek, ldb_seek. set (ik := inner_key (it_path it) key) in *.
+  intros it key Hro Hs Hne ge. rewrite iter_seek_off by (apply mi_active_ro; exact Hro). unfold iter_seek_u, ldb_seek. set (ik := inner_key (it_path it) key) in *.
   pose proof (find_ge_spec ik (it_ents it) 0%nat Hs) as Hf. fold ge in Hf.
   destruct (find_ge ik (it_ents it) 0%nat) as [j|].
   - destruct Hf as [n [Ej [Hn Hsk]]]. cbn in Ej. subst j. rewrite Hro. cbn [fst snd].
@@ -877,15 +890,18 @@ Proof.
     + rewrite <- Hsk. split; [discriminate|reflexivity].
     + set (it' := set_ldb it (At n) false).
       assert (Hk : iter_current it' = [strip (it_pl it) e]).
-      { unfold iter_current, iter_key, iter_value, iter_raw, it'. cbn [set_ldb it_end it_pos it_ents negb it_pl]. rewrite En.
+      { unfold iter_current, iter_key, iter_value. rewrite iter_raw_off by (apply mi_active_ro; exact Hro).
+        unfold iter_raw_u, it'. cbn [set_ldb it_end it_pos it_ents negb it_pl]. rewrite En.
         destruct e as [k v]. rewrite Forall_forall in Hne. apply nth_error_In in En. apply Hne in En. cbn in En.
         destruct k; [congruence|]. reflexivity. }
       rewrite Hk. rewrite drain_read_only; unfold it'; cbn [set_ldb it_pos it_ents it_ro it_end it_pl]; auto.
       * unfold it_rest. cbn [set_ldb it_pos it_ents]. rewrite <- Hsk. reflexivity.
       * unfold it_rest. cbn [set_ldb it_pos it_ents]. rewrite skipn_length. lia.
   - rewrite Hro. cbn [fst snd]. rewrite Hf. split; [split; [discriminate|congruence]|].
-    unfold iter_current, iter_key, iter_raw. cbn [set_ldb it_end it_ro negb andb]. rewrite Hro. cbn [negb andb app map].
-    cbn [drain]. unfold iter_next. cbn [set_ldb it_end it_ro]. rewrite Hro. reflexivity.
+    unfold iter_current, iter_key. rewrite iter_raw_off by (apply mi_active_ro; exact Hro).
+    unfold iter_raw_u. cbn [set_ldb it_end it_ro negb andb]. rewrite Hro. cbn [negb andb app map].
+    cbn [drain]. rewrite iter_next_off by (apply mi_active_ro; exact Hro).
+    unfold iter_next_u. cbn [set_ldb it_end it_ro]. rewrite Hro. reflexivity.
 Qed.
 
 Lemma filter_inner_ents : forall path key X,
@@ -918,7 +934,7 @@ Proof.
   { cbn [it new_iterator new_iterator_gen it_ents]. unfold range_entries. apply filter_len. }
   (* the drain fuel: any fuel above the number of snapshot entries gives the same list *)
   assert (Hfuel : drain (S (length s)) (snd r) = drain (S (length (it_ents it))) (snd r)).
-  { unfold r. fold it. unfold iter_seek, ldb_seek.
+  { unfold r. fold it. rewrite iter_seek_off by reflexivity. unfold iter_seek_u, ldb_seek.
     pose proof (find_ge_spec (inner_key (it_path it) key) (it_ents it) 0%nat Hsorted_e) as Hf.
     destruct (find_ge (inner_key (it_path it) key) (it_ents it) 0%nat) as [j|].
     - destruct Hf as [n [Ej [Hn _]]]. cbn in Ej. subst j. change (it_ro it) with true. cbn [snd].
@@ -931,7 +947,7 @@ Proof.
       rewrite (drain_read_only (S (length s)) it' A1 A2 A3) by lia.
       rewrite (drain_read_only (S (length (it_ents it))) it' A1 A2 A3) by lia.
       reflexivity.
-    - change (it_ro it) with true. cbn [snd]. cbn [drain]. unfold iter_next. cbn [set_ldb it_end it_ro orb]. reflexivity. }
+    - change (it_ro it) with true. cbn [snd]. cbn [drain]. rewrite iter_next_off by reflexivity. unfold iter_next_u. cbn [set_ldb it_end it_ro orb]. reflexivity. }
   assert (Hout : out = filter (fun e => ble key (fst e)) X).
   { unfold out. rewrite Hfuel. unfold r. rewrite Hd.
     replace (it_path it) with (h_path h) by reflexivity. rewrite He, filter_inner_ents.
